@@ -384,6 +384,31 @@ func c18Eval(t *fw.T, c *fw.Case) {
 		}
 		t.Distinct(named + " " + carrier)
 	}
+	// a banned kind that occurs only in the body of a macro nobody pastes: it is written in the project all the same
+	if carrier == "direct" {
+		snippets := [][2]string{
+			{"TYPE", "TYPE @zzUnusedT any"}, {"ENUM", "ENUM @zzUnusedE\n  [1, 2]"}, {"SERVER", "SERVER @zzUnusedS\n    BaseUrl \"https://zz/\""},
+			{"Query", "Query\n  {\"q\": 1}"}, {"Headers", "Headers\n  {\"h\": \"v\"}"}, {"GET", "GET /zz/unused\n    200 any"}, {"DELETE", "DELETE /zz/unused\n    200 any"},
+			{"Request", "Request any"}, {"Body", "Body any"}, {"HTTP-response-code", "200 any"}, {"Description", "Description\n    text"}, {"URL", "URL /zz/unusedurl"},
+			{"BaseUrl", "BaseUrl \"https://zz/\""}, {"Title", "Title \"zz\""}, {"Path", "Path\n  {\"id\": 1}"}, {"INFO", "INFO\n    Title \"zz\""},
+		}
+		sn := snippets[(c.Index/4)%len(snippets)]
+		with := rd.Text + "MACRO @zzUnusedMacro\n(\n  " + sn[1] + "\n)\n"
+		dm := run.Single([]byte(with))
+		dm.FixedSeed = true
+		if om := t.Exec(dm); om.Outcome == run.Accepted && !present[sn[0]] {
+			dm.Ban = []string{sn[0]}
+			o := t.Exec(dm)
+			t.Count("banned_hits_checked")
+			t.Count("banned_in_unpasted_macro_checked")
+			if o.Outcome != run.Rejected || !strings.Contains(o.Msg, "directive not allowed ("+sn[0]+")") {
+				c.Docs = []run.Doc{dm}
+				t.Violation("ban-not-enforced:"+sn[0]+":unpasted-macro", fmt.Sprintf("banned %s occurs in the body of a macro that is never pasted, result: %s\n%s", sn[0], describe(o), with))
+			} else {
+				t.Distinct(sn[0] + " unpasted-macro")
+			}
+		}
+	}
 	// INCLUDE banned: the named file must not be read
 	if carrier == "include" && len(rd.Files) > 0 && c.Index%8 == 3 {
 		broken := run.Doc{Files: map[string][]byte{"root.jst": []byte(rd.Text)}, Root: "root.jst", Ban: []string{"INCLUDE"}, OnDisk: true}
